@@ -680,6 +680,10 @@ func (w *World) annMove(n *wnode) bool {
 
 func (w *World) njOp(n *wnode) {
 	id := fmt.Sprint(1000 + w.r.Intn(5))
+	if w.r.Chance(0.2) {
+		w.njSchema(n, []string{"json_schema", "schema", "schema_batch"}[w.r.Intn(3)], w.r.Chance(0.75))
+		return
+	}
 	switch k := w.r.Intn(10); {
 	case k < 7:
 		idn, _ := strconv.Atoi(id)
@@ -723,6 +727,19 @@ func (w *World) njOp(n *wnode) {
 		w.s.HTTP("DELETE", "node/"+n.uuid+"/nj/key/"+id+"?u=tester", nil)
 		delete(n.nj, id)
 		w.log("nj delete %s at v%d", id, n.v)
+	}
+}
+
+// njSchema: set or delete one kind of schema metadata of the neuronjson instance at this version (the validation
+// schema stays permissive so that it never rejects the generated annotations)
+func (w *World) njSchema(n *wnode, typ string, post bool) {
+	if post {
+		body := fmt.Sprintf(`{"type":"object","title":"%s-%d-v%d"}`, typ, w.r.Intn(1000), n.v)
+		w.must("POST", "node/"+n.uuid+"/nj/"+typ+"?u=tester", []byte(body))
+		w.log("nj post %s %s at v%d", typ, body, n.v)
+	} else {
+		w.s.HTTP("DELETE", "node/"+n.uuid+"/nj/"+typ+"?u=tester", nil)
+		w.log("nj delete %s at v%d", typ, n.v)
 	}
 }
 
@@ -872,6 +889,9 @@ func (w *World) Snapshot() map[string]string {
 			g("nj/all")
 			g("nj/fields")
 			g("nj/fields?counts=true")
+			g("nj/json_schema")
+			g("nj/schema")
+			g("nj/schema_batch")
 			for i := 0; i < 5; i++ {
 				g(fmt.Sprintf("nj/key/%d", 1000+i))
 			}
